@@ -94,7 +94,7 @@ _hv_forward["ensures"] = list(_hv_forward["ensures"]) + ["final(self).ctx == old
 UNIT = {
     "name": "lattice_constrain",
     "env": [os.path.join(ENV, "lattice_constrain_env.rs")],
-    "declared_trusted": {r"external_body": 27},
+    "declared_trusted": {r"external_body": 28},
     "items": [
         {"kind": "enum", "file": "bindgen/ir/analysis/mod.rs", "name": "ConstrainResult", "prefix": "#[derive(Copy, Clone, PartialEq, Eq, Structural)]"},
         {"kind": "enum", "file": HV, "name": "HasVtableResult", "prefix": "#[derive(Copy, Clone, PartialEq, Eq, Structural)]"},
